@@ -356,7 +356,16 @@ struct session
     {
         (void) calls;
         bool threw = false;
-        try { c.rollback(k); } catch (std::out_of_range const&) { threw = true; }
+        // (every other time through a reference to the checkpoint type without generators, or to the bare list of results)
+        static int via = 0;
+        ++via;
+        try
+        {
+            if (via % 3 == 1) { typename K::base& b = c; b.rollback(k); }
+            else if (via % 3 == 2) { hep::chkpt<typename C::result_type>& b = c; b.rollback(k); }
+            else c.rollback(k);
+        }
+        catch (std::out_of_range const&) { threw = true; }
         C probe = c;
         K::prepare(probe);
         // the checkpoint after the (possibly rejected) rollback, as text and as the state the next iteration would use
